@@ -184,27 +184,39 @@ class OperatorNode(ASTNode):
         self.left = None
         self.right = None
 
+    @staticmethod
+    def _operand(node, context):
+        # A function may hand back a native Python value (COUNT returns an
+        # int, ISTEXT a bool): as an operand it is an Excel value like any
+        # other, so that `=COUNT(A1)=ISTEXT(A2)` compares a number with a
+        # logical the way `=1=TRUE` does.
+        value = node.eval(context)
+        if type(value) in func_xltypes.NATIVE_TO_XLTYPE:
+            value = func_xltypes.ExcelType.cast_from_native(value)
+        return value
+
     def eval(self, context):
         if self.ttype == 'operator-prefix':
             assert self.left is None, 'Left operand for prefix operator'
             op = PREFIX_OP_TO_FUNC[self.tvalue]
-            return op(self.right.eval(context))
+            return op(self._operand(self.right, context))
 
         elif self.ttype == 'operator-infix':
             if self.tsubtype == 'percent':
                 # "x%" is parsed as "x * 0.01", but a hundredth is x / 100:
                 # 57 * 0.01 is 0.5700000000000001, and "=57 %" must give
                 # what "=57%" gives.
-                return INFIX_OP_TO_FUNC['/'](self.left.eval(context), 100)
+                return INFIX_OP_TO_FUNC['/'](
+                    self._operand(self.left, context), 100)
             op = INFIX_OP_TO_FUNC[self.tvalue]
             return op(
-                self.left.eval(context),
-                self.right.eval(context),
+                self._operand(self.left, context),
+                self._operand(self.right, context),
             )
         elif self.ttype == 'operator-postfix':
             assert self.right is None, 'Right operand for postfix operator'
             op = POSTFIX_OP_TO_FUNC[self.tvalue]
-            return op(self.left.eval(context))
+            return op(self._operand(self.left, context))
         else:
             raise ValueError(f'Invalid operator type: {self.ttype}')
 
